@@ -150,38 +150,36 @@ def order_domain(ctx, repo):
         env, got, want = cex
         ctx.violation("O1", "activity-predicate", pe.loc(act_expr), f"`{ast.unparse(act_expr)}` is {got} for ordering start={env['S']}, date={env['D']}, end={env['E']} (ranks) but inclusive bounds demand {want}")
     # selection guard: functions[...] = f stored iff (not time-dependent) or active
-    store = None
-    for n in walk_own(lf):
-        if isinstance(n, ast.If):
-            for m in ast.walk(n):
-                if isinstance(m, ast.Assign) and isinstance(m.targets[0], ast.Subscript):
-                    store = n
-    if store is None:
-        raise AnalysisError("selection guard in load_functions_for_date not found")
-    calls = {}
-    for m in ast.walk(store.test):
-        if isinstance(m, ast.Call) and isinstance(m.func, ast.Name) and m.func.id in pe.functions:
-            calls[m.func.id] = None
+    from staticlib.guards import Dominance, atoms_and_eval, scope_functions
 
-    def m2(node):
+    dom = Dominance(lf)
+    stores = [n for n in ast.walk(lf) if isinstance(n, ast.Assign) and isinstance(n.targets[0], ast.Subscript)]
+    rets = [n for n in ast.walk(lf) if isinstance(n, ast.Return) and isinstance(n.value, ast.Name)]
+    stores = [n for n in stores if rets and isinstance(n.targets[0].value, ast.Name) and n.targets[0].value.id == rets[0].value.id]
+    if len(stores) != 1:
+        raise AnalysisError("load_functions_for_date: the statement storing a selected function not found")
+    store = stores[0]
+
+    def atom(node):
         if isinstance(node, ast.Call) and isinstance(node.func, ast.Name) and node.func.id in pe.functions:
-            fn = pe.functions[node.func.id]
-            ks = {_info_key(x) for x in ast.walk(fn)} - {None}
+            fn_ = pe.functions[node.func.id]
+            ks = {_info_key(x) for x in ast.walk(fn_)} - {None}
             return "A" if {"start_date", "end_date"} <= ks else "T"
-        if node is act_expr or ast.unparse(node) == ast.unparse(act_expr):
+        if ast.unparse(node) == ast.unparse(act_expr):
             return "A"
         return None
 
-    gexpr = Subst(m2).visit(ast.parse(ast.unparse(store.test), mode="eval").body)
-    try:
-        tt = truth_table(gexpr, ["T", "A"])
-    except ValueError as e:
-        raise AnalysisError(f"selection guard `{ast.unparse(store.test)}` not a boolean combination of the two tests: {e}") from e
-    want = {(t, a): ((not t) or a) for t in (False, True) for a in (False, True)}
-    bad = [(k, v) for k, v in tt.items() if v != want[k]]
+    names, conj = atoms_and_eval(dom.of(store), atom)
+    if not set(names) <= {"T", "A"}:
+        raise AnalysisError(f"selection guard in load_functions_for_date involves more than the two tests: {names}")
+    bad = []
+    for t in (False, True):
+        for a_ in (False, True):
+            if conj({"T": t, "A": a_}) != ((not t) or a_):
+                bad.append((t, a_))
     ctx.ob("O1", ok=not bad, distinct="selection", n=4)
     if bad:
-        ctx.violation("O1", "selection-guard", pe.loc(store), f"`{ast.unparse(store.test)}` selects a function when (time_dependent, active)={bad[0][0]} -> {bad[0][1]}; expected (not time_dependent) or active")
+        ctx.violation("O1", "selection-guard", pe.loc(store), f"a function with (time_dependent, active) = {bad[0]} is {'selected' if conj({'T': bad[0][0], 'A': bad[0][1]}) else 'dropped'}; expected: selected iff (not time_dependent) or active")
 
     # ---- O2 / O3 selectors
     facts = __import__("staticlib.session", fromlist=["x"]).get_session(ctx.root).em.facts
@@ -191,7 +189,11 @@ def order_domain(ctx, repo):
     # ---- O5 calendar arithmetic of the look-ups at other dates
     ctx.rule("O5", "the loader moves dates by calendar fields (same day one year earlier with 29 Feb -> 28 Feb; 1 January of the year; the day before an entry) - never by a fixed number of days standing for a year or month")
     loader = facts.loader
-    tds = [n for n in ast.walk(loader) if isinstance(n, ast.Call) and ast.unparse(n.func).endswith("timedelta")]
+    scope = scope_functions(pe, loader)
+    nested = [n for f_ in scope for n in ast.walk(f_) if isinstance(n, ast.FunctionDef)]
+    scope_all = list({id(f_): f_ for f_ in [*scope, *nested]}.values())
+    tds = [n for f_ in scope for n in ast.walk(f_) if isinstance(n, ast.Call) and ast.unparse(n.func).endswith("timedelta")]
+    tds = list({id(n): n for n in tds}.values())
     for n in tds:
         days = None
         for kw in n.keywords:
@@ -205,8 +207,8 @@ def order_domain(ctx, repo):
         ctx.ob("O5", ok=ok, distinct=ast.unparse(n))
         if not ok:
             ctx.violation("O5", f"timedelta|{ast.unparse(n)}", pe.loc(n), f"`{ast.unparse(n)}` shifts a date by a fixed number of days; a prior-year / start-of-year look-up computed this way is off by a day in and after leap years")
-    src = ast.unparse(loader)
-    for n in ast.walk(loader):
+    src = "\n".join(ast.unparse(f_) for f_ in scope)
+    for n in [x for f_ in scope for x in ast.walk(f_)]:
         if isinstance(n, ast.Call) and isinstance(n.func, ast.Attribute) and n.func.attr == "replace":
             kws = {kw.arg: (kw.value.value if isinstance(kw.value, ast.Constant) else None) for kw in n.keywords}
             if "month" in kws or "day" in kws and "year" not in kws:
@@ -228,60 +230,79 @@ def order_domain(ctx, repo):
     # ---- O6 which date each recursive look-up uses
     ctx.rule("O6", "recursive look-ups use the right date: `previous` -> the day before the entry in force; `group.param` -> the same date; `vorjahr` -> the same day one year earlier; `jahresanfang` -> 1 January of the same year")
     lname = loader.name
-    dparam = loader.args.args[0].arg
-    la = {}
-    for n in ast.walk(loader):
-        if isinstance(n, ast.Assign) and len(n.targets) == 1 and isinstance(n.targets[0], ast.Name):
-            la.setdefault(n.targets[0].id, []).append(n.value)
-    parents = {}
-    for n in ast.walk(loader):
-        for c in ast.iter_child_nodes(n):
-            parents[c] = n
+    date_name = loader.args.args[0].arg
+    helpers_by_name = {f_.name: f_ for f_ in scope_all}
 
-    def branch_words(node):
-        words = set()
-        while node in parents:
-            par = parents[node]
-            if isinstance(par, ast.If):
-                in_body = any(node is x or node in list(ast.walk(x)) for x in par.body)
-                if in_body:
-                    words |= {c.value for c in ast.walk(par.test) if isinstance(c, ast.Constant) and isinstance(c.value, str)}
-                    words |= {"<no past policies>"} if ast.unparse(par.test).startswith("not ") and "past" in ast.unparse(par.test) else set()
-            node = par
-        return words
+    def analyse_fn(f_):
+        """recursive look-ups inside f_: (call, date kind, branch words)"""
+        params_ = [a.arg for a in f_.args.args + f_.args.kwonlyargs]
+        dparam = date_name if date_name in params_ else (params_[0] if params_ else None)
+        la = {}
+        for n in ast.walk(f_):
+            if isinstance(n, ast.Assign) and len(n.targets) == 1 and isinstance(n.targets[0], ast.Name):
+                la.setdefault(n.targets[0].id, []).append(n.value)
+        parents = {}
+        for n in ast.walk(f_):
+            for c in ast.iter_child_nodes(n):
+                parents[c] = n
 
-    def date_kind(e, depth=0):
-        t = ast.unparse(e)
-        if isinstance(e, ast.Name) and e.id == dparam:
-            return "same"
-        if isinstance(e, ast.Name) and e.id in la and depth < 4:
-            ks = {date_kind(v, depth + 1) for v in la[e.id]}
-            return ks.pop() if len(ks) == 1 else "?"
-        if isinstance(e, ast.BinOp) and isinstance(e.op, ast.Sub) and "timedelta(days=1)" in ast.unparse(e.right) and ("max(" in ast.unparse(e.left)):
-            return "day-before-entry"
-        if isinstance(e, ast.Call) and ast.unparse(e.func) in ("numpy.max", "np.max", "max", "numpy.min", "np.min", "min"):
-            return "entry-date"
-        if isinstance(e, ast.Call) and isinstance(e.func, ast.Name):
-            helper = [n for n in ast.walk(loader) if isinstance(n, ast.FunctionDef) and n.name == e.func.id]
-            if helper:
-                ht = ast.unparse(helper[0])
-                arg0 = e.args[0] if e.args else None
+        def branch_words(node):
+            words = set()
+            while node in parents:
+                par = parents[node]
+                if isinstance(par, ast.If):
+                    in_body = any(node is x or node in list(ast.walk(x)) for x in par.body)
+                    if in_body:
+                        words |= {c.value for c in ast.walk(par.test) if isinstance(c, ast.Constant) and isinstance(c.value, str)}
+                        if ast.unparse(par.test).startswith("not ") and "past" in ast.unparse(par.test):
+                            words.add("<no past policies>")
+                node = par
+            return words
+
+        def date_kind(e, depth=0):
+            if isinstance(e, ast.Name) and e.id == dparam:
+                return "same"
+            if isinstance(e, ast.Name) and e.id in la and depth < 4:
+                ks = {date_kind(v, depth + 1) for v in la[e.id]}
+                return ks.pop() if len(ks) == 1 else "?"
+            if isinstance(e, ast.BinOp) and isinstance(e.op, ast.Sub) and isinstance(e.right, ast.Call) and ast.unparse(e.right.func).endswith("timedelta"):
+                kws = {kw.arg: getattr(kw.value, "value", None) for kw in e.right.keywords}
+                if kws == {"days": 1} and isinstance(e.left, ast.Call) and ast.unparse(e.left.func) in ("numpy.max", "np.max", "max"):
+                    return "day-before-entry"
+                return "?"
+            if isinstance(e, ast.Call) and ast.unparse(e.func) in ("numpy.max", "np.max", "max", "numpy.min", "np.min", "min"):
+                return "entry-date"
+            if isinstance(e, ast.Call) and isinstance(e.func, ast.Name) and e.func.id in helpers_by_name:
+                h = helpers_by_name[e.func.id]
+                arg0 = e.args[0] if e.args else next((kw.value for kw in e.keywords if kw.arg in ("dt", "date")), None)
                 same_arg = isinstance(arg0, ast.Name) and arg0.id == dparam
-                if ".replace(month=1, day=1)" in ht and same_arg:
+                reps = [n for n in ast.walk(h) if isinstance(n, ast.Call) and isinstance(n.func, ast.Attribute) and n.func.attr == "replace"]
+                kwsets = [{kw.arg for kw in r_.keywords} for r_ in reps]
+                if same_arg and any({"month", "day"} <= k for k in kwsets) and not any("year" in k for k in kwsets):
                     return "jan-1"
-                if ".replace(year=" in ht and same_arg:
+                if same_arg and any("year" in k for k in kwsets):
                     yrs = [kw.value.value for kw in e.keywords if kw.arg == "years" and isinstance(kw.value, ast.Constant)] + [a.value for a in e.args[1:] if isinstance(a, ast.Constant)]
                     return "year-earlier" if yrs == [1] else f"{yrs}-years-earlier"
-        return "?"
+            return "?"
 
-    rec = [n for n in ast.walk(loader) if isinstance(n, ast.Call) and isinstance(n.func, ast.Name) and n.func.id == lname]
+        out = []
+        for c in ast.walk(f_):
+            if isinstance(c, ast.Call) and isinstance(c.func, ast.Name) and c.func.id == lname:
+                darg = c.args[0] if c.args else next((kw.value for kw in c.keywords if kw.arg == date_name), None)
+                if darg is not None:
+                    out.append((c, date_kind(darg), branch_words(c)))
+        return out
+
     want_by_word = {"previous": "day-before-entry", "vorjahr": "year-earlier", "jahresanfang": "jan-1"}
     seen_kinds = set()
-    for c in rec:
-        if not c.args:
+    rec_all = []
+    for f_ in scope:
+        rec_all += analyse_fn(f_)
+    seen_calls = set()
+    for c, k, words in rec_all:
+        if id(c) in seen_calls:
             continue
-        k = date_kind(c.args[0])
-        words = branch_words(c)
+        seen_calls.add(id(c))
         expected = None
         for w, kind in want_by_word.items():
             if w in words:
@@ -289,34 +310,40 @@ def order_domain(ctx, repo):
         if expected is None and ("." in words or "<no past policies>" in words or "deviation_from" in words):
             expected = "same"
         if expected is None or k == "?":
+            if any(f.rule == "O5" for f in ctx.findings):
+                continue
             raise AnalysisError(f"loader: recursive look-up `{ast.unparse(c)[:70]}` not classifiable (date {k}, branch {sorted(words)[:4]}); O6 needs a re-read")
         seen_kinds.add(expected)
         ok = k == expected
         ctx.ob("O6", ok=ok, distinct=(expected, c.lineno))
         if not ok:
-            ctx.violation("O6", f"{expected}|{k}", pe.loc(c), f"the look-up in the `{[w for w in want_by_word if w in words] or ['group.param']}` branch loads the parameter at `{ast.unparse(c.args[0])}` ({k}), expected {expected}")
-    if not {"day-before-entry", "year-earlier", "jan-1", "same"} <= seen_kinds:
+            ctx.violation("O6", f"{expected}|{k}", pe.loc(c), f"the look-up in the `{[w for w in want_by_word if w in words] or ['group.param']}` branch loads the parameter at `{ast.unparse(c.args[0]) if c.args else '?'}` ({k}), expected {expected}")
+    if not {"day-before-entry", "year-earlier", "jan-1", "same"} <= seen_kinds and not any(f.rule in ("O5", "O6") for f in ctx.findings):
         raise AnalysisError(f"loader: only look-ups of kinds {sorted(seen_kinds)} found; O6 needs a re-read")
 
     # ---- O4 conflict predicate
     sh = repo.module("shared.py")
     pi = find_function(sh, "policy_info", "primary anchor")
+    cand = [sh.functions[n.func.id] for n in ast.walk(pi) if isinstance(n, ast.Call) and isinstance(n.func, ast.Name) and n.func.id in sh.functions]
     conflict = None
-    names = [n.func.id for n in ast.walk(pi) if isinstance(n, ast.Call) and isinstance(n.func, ast.Name) and n.func.id in sh.functions]
-    for nm in names:
-        fn = sh.functions[nm]
-        for n in ast.walk(fn):
-            if isinstance(n, ast.If) and any(isinstance(x, ast.Raise) for x in ast.walk(n)):
-                keys = {_info_key(x) for x in ast.walk(n.test)} - {None}
-                if "start_date" in keys:
-                    conflict = (fn, n)
+    for fn in cand:
+        keys = {_info_key(x) for x in ast.walk(fn)} - {None}
+        raises = [n for n in ast.walk(fn) if isinstance(n, ast.Raise)]
+        if "start_date" in keys and raises:
+            conflict = (fn, raises)
     if conflict is None:
         raise AnalysisError("registration conflict test not found from policy_info")
-    fn, ifn = conflict
+    fn, raises = conflict
     ps = [a.arg for a in fn.args.args]
+    aliases = {}
+    for n in ast.walk(fn):
+        if isinstance(n, ast.Assign) and len(n.targets) == 1 and isinstance(n.targets[0], ast.Name) and _info_key(n.value):
+            aliases[n.targets[0].id] = _info_key(n.value)
 
     def m4(node):
         k = _info_key(node)
+        if isinstance(node, ast.Name) and node.id in aliases:
+            k = aliases[node.id]
         if k == "start_date":
             return "FS"
         if k == "end_date":
@@ -326,24 +353,48 @@ def order_domain(ctx, repo):
                 return "S"
             if node.id.startswith("end"):
                 return "E"
-        if isinstance(node, ast.Compare) and any("__name__" in ast.unparse(x) for x in ast.walk(node)):
-            return "OTHER"
         return None
 
-    cexpr = Subst(m4).visit(ast.parse(ast.unparse(ifn.test), mode="eval").body)
-    try:
-        n, cex = equivalent_on_orderings(
-            cexpr, ["S", "E", "FS", "FE"],
-            lambda e: max(e["S"], e["FS"]) <= min(e["E"], e["FE"]),
-            side=lambda e: e["S"] <= e["E"] and e["FS"] <= e["FE"],
-            funcs={"OTHER": True, "max": max, "min": min},
-        )
-    except ValueError as e:
-        raise AnalysisError(f"conflict test `{ast.unparse(ifn.test)}` not a pure date predicate: {e}") from e
-    ctx.ob("O4", ok=cex is None, distinct="conflict", n=n)
-    if cex:
-        env, got, want = cex
-        ctx.violation("O4", "conflict-predicate", sh.loc(ifn), f"`{ast.unparse(ifn.test)}` is {got} but the intervals [{env['S']},{env['E']}] and [{env['FS']},{env['FE']}] (ranks) {'do' if want else 'do not'} overlap")
+    class NameCmp(ast.NodeTransformer):
+        """comparison of the two functions' names -> atom OTHER (they are different functions)"""
+
+        def visit_Compare(self, node):
+            if any("__name__" in ast.unparse(x) for x in ast.walk(node)) and len(node.ops) == 1:
+                other = ast.Name(id="OTHER", ctx=ast.Load())
+                if isinstance(node.ops[0], (ast.NotEq, ast.IsNot)):
+                    return other
+                if isinstance(node.ops[0], (ast.Eq, ast.Is)):
+                    return ast.UnaryOp(op=ast.Not(), operand=other)
+            return self.generic_visit(node)
+
+    domc = Dominance(fn)
+    for r in raises:
+        conds = domc.of(r)
+        parts = []
+        for t, pol in conds:
+            if not ({_info_key(x) for x in ast.walk(t)} - {None}) and not any(isinstance(x, ast.Name) and x.id in aliases for x in ast.walk(t)) and "__name__" not in ast.unparse(t):
+                continue  # e.g. `dag_key not in TIME_DEPENDENT_FUNCTIONS` early return
+            e = ast.parse(ast.unparse(t), mode="eval").body
+            parts.append(e if pol else ast.UnaryOp(op=ast.Not(), operand=e))
+        if not parts:
+            continue
+        whole = parts[0] if len(parts) == 1 else ast.BoolOp(op=ast.And(), values=parts)
+        cexpr = Subst(m4).visit(NameCmp().visit(ast.parse(ast.unparse(whole), mode="eval").body))
+        try:
+            n1, cex = equivalent_on_orderings(
+                cexpr, ["S", "E", "FS", "FE"], lambda e: max(e["S"], e["FS"]) <= min(e["E"], e["FE"]),
+                side=lambda e: e["S"] <= e["E"] and e["FS"] <= e["FE"], funcs={"OTHER": True, "max": max, "min": min})
+            n2, cex2 = equivalent_on_orderings(
+                cexpr, ["S", "E", "FS", "FE"], lambda e: False,
+                side=lambda e: e["S"] <= e["E"] and e["FS"] <= e["FE"], funcs={"OTHER": False, "max": max, "min": min})
+        except ValueError as e:
+            raise AnalysisError(f"conflict test `{ast.unparse(whole)[:120]}` not a pure date predicate: {e}") from e
+        ctx.ob("O4", ok=cex is None and cex2 is None, distinct="conflict", n=n1)
+        if cex:
+            env, got, want = cex
+            ctx.violation("O4", "conflict-predicate", sh.loc(r), f"the conflict is raised = {got} but the intervals [{env['S']},{env['E']}] and [{env['FS']},{env['FE']}] (ranks) {'do' if want else 'do not'} overlap (condition: `{ast.unparse(whole)[:140]}`)")
+        elif cex2:
+            ctx.violation("O4", "conflict-with-itself", sh.loc(r), "a function re-registered under its own name is reported as a conflict")
     ctx.floor("O1", 17)
     ctx.floor("O4", 26)
 
